@@ -1,5 +1,6 @@
 /- REGENERATED on every run by harness/props/c08.py from sequence/align/{tracetable.pxd, tracetable.pyx, pairwise.pyx,
    alignment.py, matrix.py}. Do not edit. -/
+set_option linter.unusedVariables false
 namespace BiotiteModel.Gen.C08
 /-- `TraceDirectionLinear` members: (name, bit value). -/
 def traceLinear : List (String × Nat) := [("MATCH", 1), ("GAP_LEFT", 2), ("GAP_TOP", 4)]
